@@ -1,0 +1,15 @@
+//go:build verif
+
+package ocsp
+
+import "time"
+
+// VerifCachedResponseExpiry returns the absolute expiry stored with a cached ocsp response
+// (data is the data of an item of the cache table "ocsp_client")
+func VerifCachedResponseExpiry(data interface{}) (time.Time, bool) {
+	cached, ok := data.(cachedRevocationStatus)
+	if !ok {
+		return time.Time{}, false
+	}
+	return cached.expires, true
+}
